@@ -131,7 +131,7 @@ def make_params(cfg):
 
 
 def cfg_key(cfg):
-    return "|".join(str(cfg.get(k)) for k in ("method", "solver", "fmode", "ex", "act", "engine")) + (f"|acts={cfg['acts']}" if cfg.get("acts") else "") + ("|uhf" if cfg.get("uhf") else "") + (f"|com={cfg['com'][0]}{cfg['com'][1]}" if cfg.get("com") else "")
+    return "|".join(str(cfg.get(k)) for k in ("method", "solver", "fmode", "ex", "act", "engine")) + (f"|acts={cfg['acts']}" if cfg.get("acts") else "") + ("|uhf" if cfg.get("uhf") else "") + (f"|com={cfg['com'][0]}{cfg['com'][1]}" if cfg.get("com") else "") + ("|molid=rev" if cfg.get("molid") else "")
 
 
 def tolerance(cfg):
@@ -168,6 +168,7 @@ def _md_call(mols, specs, cfg, pad, pat):
         return B.run_md(
             eng, mols, p, MD_STEPS, dt=0.5, temp=0.0, velocities=[velocity(s) for s in specs], pad_extra=pad,
             pattern=pat, k=3, xl_extra=xe, horizon=Horizon(HORIZON * (MD_STEPS + 1)), remove_com=cfg.get("com"),
+            molid=(list(reversed(range(len(mols)))) if cfg.get("molid") == "rev" else None),
         )  # fmt: skip
 
 
@@ -562,6 +563,13 @@ def lattice(tier, seed):
             #  detecting linear molecules, a diatomic then has n_dof = 0 and no temperature; C13 records that refusal)
             for bt in [list(t) for t in itertools.permutations(["CH4", "H2O", "H2CO"], 2)] + ([] if quick else [["NH4+", "H2CO"], ["CH4", "H2O", "H2CO"]]):
                 cases.append(_case("md", [_spec(n) for n in bt], 1, "far", _cfg("AM1", engine=engine, com=com), seed))
+    # the output request lists the molecules in another order than the batch (molid = [1, 0]): every file must hold the
+    # values of ITS batch row, whatever the position of the molecule in the request
+    for engine in ("bomd",) if quick else ("bomd", "xl"):
+        if engine not in ENGINES:
+            continue
+        for bt in [list(t) for t in itertools.permutations(["CH4", "H2O", "H2CO"], 2)]:
+            cases.append(_case("md", [_spec(n) for n in bt], 1, "far", _cfg("AM1", engine=engine, molid="rev"), seed))
     for engine in ENGINES_PAIRS_ONLY:
         for bt in md_batches:
             cases.append(_case("md", [_spec(n) for n in bt], 1, "far", _cfg("AM1", engine=engine), seed))
